@@ -167,6 +167,8 @@ pub enum RxMeta {
     Garbage,
     /// bytes that may be an incomplete packet (followed by EOF)
     Partial,
+    /// raw bytes outside the ledger (enumeration scenarios judge them themselves)
+    Raw,
 }
 
 pub struct ConnState {
@@ -413,6 +415,9 @@ pub struct Stats {
 
 pub struct World {
     pub tape: Tape,
+    /// twin scenarios: the I/O schedule (chunking, stalls, cancellation) draws from its own
+    /// tape so that the program tape is identical in both runs
+    pub sched: Option<Tape>,
     pub cfg: RunCfg,
     pub seed: u64,
     pub events: BTreeMap<(u64, u64), Event>,
@@ -468,6 +473,23 @@ pub struct World {
     pub sim_time_max: u64,
     pub qos0_cancelled: bool,
     pub burn_done: bool,
+    pub twin_mode: bool,
+    /// position of the program tape at which the (twin) script generation starts
+    pub script_start_pos: usize,
+    pub last_cancel_idle: bool,
+    /// FragTwin(0): split points of the inbound stream (bit i set = a read ends after byte i)
+    pub chunk_mask: Option<u64>,
+    /// FaultEnum: inject this fault at the n-th I/O call of the armed operation
+    pub inject: Option<(u64, u8)>,
+    pub inject_armed: bool,
+    pub io_calls_in_op: u64,
+    pub results: Vec<String>,
+    pub force_cancel: Option<u8>,
+    pub hold_acks: bool,
+    pub raw_after_connack: Option<Vec<u8>>,
+    pub raw_instead_of_connack: Option<Vec<u8>>,
+    /// raw inbound bytes bypass the ledger: C04 expectations are not maintained
+    pub raw_mode: bool,
     pub trace_hash: u64,
 }
 
@@ -478,6 +500,7 @@ impl World {
         let expected_client_id = cfg.client_id.clone();
         Self {
             tape,
+            sched: None,
             cfg,
             seed,
             events: BTreeMap::new(),
@@ -526,7 +549,34 @@ impl World {
             sim_time_max: 0,
             qos0_cancelled: false,
             burn_done: false,
+            twin_mode: false,
+            script_start_pos: 0,
+            last_cancel_idle: false,
+            chunk_mask: None,
+            inject: None,
+            inject_armed: false,
+            io_calls_in_op: 0,
+            results: Vec::new(),
+            force_cancel: None,
+            hold_acks: false,
+            raw_after_connack: None,
+            raw_instead_of_connack: None,
+            raw_mode: false,
             trace_hash: 0x9E3779B97F4A7C15,
+        }
+    }
+
+    /// schedule-level draws (I/O chunking, stalls, errors, cancellation)
+    pub fn s_chance(&mut self, num: u32, den: u32) -> bool {
+        match &mut self.sched {
+            Some(t) => t.chance(num, den),
+            None => self.tape.chance(num, den),
+        }
+    }
+    pub fn s_choose(&mut self, n: u32) -> u32 {
+        match &mut self.sched {
+            Some(t) => t.choose(n),
+            None => self.tape.choose(n),
         }
     }
 
@@ -646,6 +696,56 @@ impl World {
         }
     }
 
+    /// FaultEnum: is the armed fault due at this I/O call?
+    fn injected(&mut self) -> Option<u8> {
+        if !self.inject_armed {
+            return None;
+        }
+        let (idx, f) = self.inject?;
+        self.io_calls_in_op += 1;
+        if self.io_calls_in_op == idx + 1 {
+            self.inject = None;
+            self.fault(match f {
+                0..=2 => "enum_io_error",
+                3 => "enum_eof",
+                4 => "enum_broker_disconnect",
+                5 => "enum_malformed_packet",
+                6 => "enum_cancel",
+                7 => "enum_drop_handle",
+                _ => "enum_forget_handle",
+            });
+            let op = self.op_label;
+            self.log(|| format!("fault enumeration: fault kind {f} at I/O call {idx} of {op}"));
+            return Some(f);
+        }
+        None
+    }
+
+    /// Apply an enumerated fault that is not tied to the outcome of the current call.
+    fn apply_side_fault(&mut self, conn: usize, f: u8) {
+        match f {
+            3 => {
+                self.conns[conn].rx_ready.clear();
+                self.conns[conn].rx_items.clear();
+                self.conns[conn].rx_consumed = self.conns[conn].rx_total_enqueued;
+                self.conns[conn].eof = true;
+                self.conns[conn].closed_by_broker = true;
+            }
+            4 => {
+                let p = crate::codec::encode(&Packet::Disconnect { reason: Some(0x8B), props: None });
+                let len = p.len();
+                self.apply_event(Event::Deliver { conn, bytes: p, metas: vec![(len, RxMeta::Disconnect)] });
+                self.apply_event(Event::Close { conn });
+            }
+            5 => {
+                let p = vec![0x00u8, 0x00];
+                self.apply_event(Event::Deliver { conn, bytes: p, metas: vec![(2, RxMeta::Garbage)] });
+                self.apply_event(Event::Close { conn });
+            }
+            _ => {}
+        }
+    }
+
     pub fn watchdog_tripped(&self) -> bool {
         self.io_calls_this_poll > IO_CALLS_PER_POLL_LIMIT
     }
@@ -663,6 +763,21 @@ impl World {
             return Poll::Pending;
         }
         self.note_offered(conn, buf);
+        if let Some(f) = self.injected() {
+            match f {
+                0..=2 => {
+                    let e = [embedded_io_async::ErrorKind::ConnectionReset, embedded_io_async::ErrorKind::TimedOut, embedded_io_async::ErrorKind::Other][f as usize];
+                    self.conns[conn].io_error = Some(e);
+                    return Poll::Ready(Err(e));
+                }
+                3..=5 => self.apply_side_fault(conn, f),
+                _ => {
+                    self.force_cancel = Some(f);
+                    self.conns[conn].blocked = Blocked::WriteStall;
+                    return Poll::Pending;
+                }
+            }
+        }
         // C01: while the stream is inside a packet, the next offer must continue that packet.
         if let Some(rem) = self.conns[conn].pending_offer.clone() {
             let c = &self.conns[conn];
@@ -696,7 +811,7 @@ impl World {
             return Poll::Ready(Err(e));
         }
         if !self.benign && !self.cfg.zero_time_io {
-            if self.conns[conn].stall_run < 3 && self.tape.chance(self.cfg.p_stall, 1000) {
+            if self.conns[conn].stall_run < 3 && { let p = self.cfg.p_stall; self.s_chance(p, 1000) } {
                 self.conns[conn].stall_run += 1;
                 self.conns[conn].blocked = Blocked::WriteStall;
                 self.fault("write_stall");
@@ -705,7 +820,7 @@ impl World {
                 return Poll::Pending;
             }
             self.conns[conn].stall_run = 0;
-            if self.tape.chance(self.cfg.p_io_err, 1000) {
+            if { let p = self.cfg.p_io_err; self.s_chance(p, 1000) } {
                 let e = self.pick_err();
                 self.conns[conn].io_error = Some(e);
                 self.fault("write_error");
@@ -715,12 +830,12 @@ impl World {
             }
         }
         let mut n = buf.len();
-        if !self.benign && buf.len() > 1 && self.tape.chance(self.cfg.p_partial_write, 1000) {
+        if !self.benign && buf.len() > 1 && { let p = self.cfg.p_partial_write; self.s_chance(p, 1000) } {
             // biased towards 1, len-1
-            n = match self.tape.choose(4) {
+            n = match self.s_choose(4) {
                 0 => 1,
                 1 => buf.len() - 1,
-                _ => 1 + self.tape.choose(buf.len() as u32 - 1) as usize,
+                _ => 1 + self.s_choose(buf.len() as u32 - 1) as usize,
             };
             self.fault("partial_write");
         }
@@ -741,11 +856,26 @@ impl World {
             self.conns[conn].blocked = Blocked::FlushStall;
             return Poll::Pending;
         }
+        if let Some(f) = self.injected() {
+            match f {
+                0..=2 => {
+                    let e = [embedded_io_async::ErrorKind::ConnectionReset, embedded_io_async::ErrorKind::TimedOut, embedded_io_async::ErrorKind::Other][f as usize];
+                    self.conns[conn].io_error = Some(e);
+                    return Poll::Ready(Err(e));
+                }
+                3..=5 => self.apply_side_fault(conn, f),
+                _ => {
+                    self.force_cancel = Some(f);
+                    self.conns[conn].blocked = Blocked::FlushStall;
+                    return Poll::Pending;
+                }
+            }
+        }
         if let Some(e) = self.conns[conn].io_error {
             return Poll::Ready(Err(e));
         }
         if !self.benign && !self.cfg.zero_time_io {
-            if self.conns[conn].stall_run < 3 && self.tape.chance(self.cfg.p_stall, 1000) {
+            if self.conns[conn].stall_run < 3 && { let p = self.cfg.p_stall; self.s_chance(p, 1000) } {
                 self.conns[conn].stall_run += 1;
                 self.conns[conn].blocked = Blocked::FlushStall;
                 self.fault("flush_stall");
@@ -754,7 +884,7 @@ impl World {
                 return Poll::Pending;
             }
             self.conns[conn].stall_run = 0;
-            if self.tape.chance(self.cfg.p_io_err, 1000) {
+            if { let p = self.cfg.p_io_err; self.s_chance(p, 1000) } {
                 let e = self.pick_err();
                 self.conns[conn].io_error = Some(e);
                 self.fault("flush_error");
@@ -786,6 +916,21 @@ impl World {
             self.conns[conn].blocked = Blocked::ReadStall;
             return Poll::Pending;
         }
+        if let Some(f) = self.injected() {
+            match f {
+                0..=2 => {
+                    let e = [embedded_io_async::ErrorKind::ConnectionReset, embedded_io_async::ErrorKind::TimedOut, embedded_io_async::ErrorKind::Other][f as usize];
+                    self.conns[conn].io_error = Some(e);
+                    return Poll::Ready(Err(e));
+                }
+                3..=5 => self.apply_side_fault(conn, f),
+                _ => {
+                    self.force_cancel = Some(f);
+                    self.conns[conn].blocked = Blocked::ReadStall;
+                    return Poll::Pending;
+                }
+            }
+        }
         if let Some(e) = self.conns[conn].io_error {
             return Poll::Ready(Err(e));
         }
@@ -803,7 +948,7 @@ impl World {
             return Poll::Pending;
         }
         if !self.benign && !self.cfg.zero_time_io {
-            if self.conns[conn].stall_run < 3 && self.tape.chance(self.cfg.p_stall, 1000) {
+            if self.conns[conn].stall_run < 3 && { let p = self.cfg.p_stall; self.s_chance(p, 1000) } {
                 self.conns[conn].stall_run += 1;
                 self.conns[conn].blocked = Blocked::ReadStall;
                 self.fault("read_stall");
@@ -812,7 +957,7 @@ impl World {
                 return Poll::Pending;
             }
             self.conns[conn].stall_run = 0;
-            if self.tape.chance(self.cfg.p_io_err, 1000) {
+            if { let p = self.cfg.p_io_err; self.s_chance(p, 1000) } {
                 let e = self.pick_err();
                 self.conns[conn].io_error = Some(e);
                 self.fault("read_error");
@@ -823,10 +968,20 @@ impl World {
         }
         let max = avail.min(buf.len());
         let mut n = max;
-        if !self.benign && max > 1 && self.tape.chance(self.cfg.p_frag_read, 1000) {
-            n = match self.tape.choose(3) {
+        if let Some(mask) = self.chunk_mask {
+            // enumerated chunking: a read never crosses a split point
+            let pos = self.conns[conn].rx_consumed;
+            for k in 0..max {
+                if pos + k < 63 && (mask >> (pos + k)) & 1 == 1 {
+                    n = k + 1;
+                    break;
+                }
+            }
+        }
+        if !self.benign && max > 1 && { let p = self.cfg.p_frag_read; self.s_chance(p, 1000) } {
+            n = match self.s_choose(3) {
                 0 => 1,
-                _ => 1 + self.tape.choose(max as u32 - 1) as usize,
+                _ => 1 + self.s_choose(max as u32 - 1) as usize,
             };
             self.fault("fragmented_read");
         }
@@ -843,7 +998,7 @@ impl World {
 
     fn pick_err(&mut self) -> embedded_io_async::ErrorKind {
         use embedded_io_async::ErrorKind as K;
-        match self.tape.choose(6) {
+        match self.s_choose(6) {
             0 => K::ConnectionReset,
             1 => K::TimedOut,
             2 => K::Interrupted,
